@@ -18,7 +18,7 @@ RULE = ("Two generated families. manifest: a grammar-based generator builds a st
         "bindings, pools, rules with all parameters (command, description, depfile, deps, generator, restat, rspfile, "
         "rspfile_content, pool; rule variables referring to other rule variables acyclically), build statements with "
         "1-3 outputs and explicit / implicit / order-only inputs, build-level bindings that shadow file-level ones, "
-        "'${x}'/'$x' nesting, '$$ $: $ ' escapes, '$'+LF continuations with indentation, identifiers that contain or "
+        "comment / blank / blanks-only lines after statements and their blocks, '${x}'/'$x' nesting, '$$ $: $ ' escapes, '$'+LF continuations with indentation, identifiers that contain or "
         "extend keywords (builder, subninjas, pool1, default_, rules), paths with spaces, quotes, '$', ':' and bytes "
         "0x80-0xFF, and include (shared scope) / subninja (child scope, using and shadowing the parent's rules and "
         "variables) trees 0-2 deep -- LF line endings, every file-level variable bound before the first build "
@@ -284,6 +284,16 @@ def manifest_file(draw, fid, depth, parent_vars, parent_rules, counter):
 def manifest_case(draw):
     counter = [0, 0]
     f = draw(manifest_file("main", 0, [], [], counter))
+
+    # lines that mean nothing to Ninja after a statement (and its indented block): an indented comment, a
+    # line of blanks only, a comment at column 0, an empty line
+    def decorate(ff):
+        for s_ in ff["stmts"]:
+            if draw(st.integers(0, 3)) == 0:
+                s_["tail"] = draw(st.sampled_from(["icomment", "iblank", "comment", "blank"]))
+            if s_["k"] in ("include", "subninja"):
+                decorate(s_["file"])
+    decorate(f)
     return {"kind": "manifest", "file": f}
 
 
@@ -330,6 +340,9 @@ def render_file(f, files):
         elif k in ("include", "subninja"):
             render_file(s["file"], files)
             L.append(k.encode() + b" " + s["file"]["name"].encode())
+        tail = s.get("tail")
+        if tail:
+            L.append({"icomment": b"  # note", "iblank": b"   ", "comment": b"# note", "blank": b""}[tail])
     files[f["name"]] = b"\n".join(L) + b"\n"
 
 
